@@ -25,7 +25,7 @@ struct Model {
 
 fn kind_and_slot(s: &Stmt) -> (&'static str, Option<Slot>) {
     match s {
-        Stmt::New => ("new", None),
+        Stmt::New | Stmt::NewDefault => ("new", None),
         Stmt::Push(sl, _) => ("push", Some(*sl)),
         Stmt::HandleOk(sl, _) => ("handle_ok", Some(*sl)),
         Stmt::HandleErr(sl, _) => ("handle_err", Some(*sl)),
@@ -136,7 +136,7 @@ impl Model {
             self.cover.push(format!("{}|{}|depth{}|live{}", kind, st, self.frames.len().min(4), live_here));
         }
         match s {
-            Stmt::New => {
+            Stmt::New | Stmt::NewDefault => {
                 let depth = self.frames.len() - 1;
                 self.frames[depth].push(MEntry::Acc(Some(Vec::new())));
                 let idx = self.frames[depth].len() - 1;
